@@ -10,6 +10,8 @@
 
 #include "IO/ProgramOptions.hpp"
 
+#include <limits>
+
 vfps::ProgramOptions::ProgramOptions() :
     _configfile("default.cfg"),
     I_b({3e-3f}),
@@ -400,6 +402,9 @@ bool vfps::ProgramOptions::parse(int ac, char** av)
 void vfps::ProgramOptions::save(std::string fname)
 {
     std::ofstream ofs(fname.c_str());
+
+    // enough digits to get back exactly the values that were used
+    ofs.precision(std::numeric_limits<double>::max_digits10);
 
     ofs << "# " << vfps::inovesa_version() << std::endl;
 
